@@ -500,9 +500,14 @@ def st_spline_additive(draw, dterm=None):
         sidx = {"k": "list", "v": perm[:ns]} if ns else None
         aidx = {"k": "list", "v": sorted(perm[ns: ns + na]) if draw(st.booleans()) else perm[ns: ns + na]}
     maps = draw(st_bounded_maps(n1))
+    nctrl = draw(st.integers(3, 40))
+    if order + ns == 3 and dterm is None and draw(st.sampled_from(range(4))) == 0:
+        # the 3-index projection accumulates the control points in batches of 200 (map_tools.project_kernel_onto_grid):
+        # control sets that need more than one batch
+        nctrl = draw(st.sampled_from([201, 260, 401]))
     return {"kind": kind, "n1": n1, "order": order, "sidx": sidx, "aidx": aidx, "maps": maps,
             "ls": draw(st_lengths(maps, max(order + ns, 1))), "scale": [draw(G.logfloat(0.25, 4.0)) for _ in range(order + 1)],
-            "alpha_rq": draw(G.logfloat(0.5, 5.0)), "opt": draw(st.booleans()), "nctrl": draw(st.integers(3, 40)),
+            "alpha_rq": draw(G.logfloat(0.5, 5.0)), "opt": draw(st.booleans()), "nctrl": nctrl,
             "seed": draw(SEED)}
 
 
@@ -550,6 +555,8 @@ def _spline_additive(case, ctx):
     nd = len(acols)
     cls = "%s/order%d" % (kind, order)
     ctx.event("class=%s/na=%d" % (cls, nd))
+    if case["nctrl"] > 200:
+        ctx.event("nctrl>200(3-index batches)")
     ctx.event("index=" + case["aidx"]["k"])
     if order >= 2 or (order >= 1 and nd >= 2):
         ctx.nontrivial([cls, n1, acols, scols, _lsq(case["ls"])])
